@@ -355,7 +355,7 @@ def part_vocabulary(w, run, model, vocab, defs):
             # ---- tags that need a child (older schemas: Label, ID, Description ...) ------------------
             if node.has("requireChild"):
                 run.invalid(in_context(sp, idx, ctx_c1, ctx_c2), "child", CL_CHILD)
-            elif True:
+            else:
                 run.valid(in_context(sp, idx, ctx_c1, ctx_c2))
             # ---- value tags ----------------------------------------------------------------------------
             if node.takes_value:
@@ -504,13 +504,18 @@ def canon(item):
     return "(" + ",".join(sorted(canon(x) for x in item)) + ")"
 
 
+SHORT_OF = {}     # atom text -> its short-form text (filled by build_atoms)
+
+
 def written(item):
-    return item if isinstance(item, str) else "(" + render(item) + ")"
+    """short-form text of an item as written (member order kept)"""
+    return SHORT_OF.get(item, item) if isinstance(item, str) else "(" + ",".join(written(x) for x in item) + ")"
 
 
 def d2_pattern(sibs, i, j):
     """syntactic description of the region where defect D2 was seen: the two equal groups at positions i, j are
-    written differently and another sibling group's text lies between their texts in plain string order."""
+    written in different member order and another sibling group's (short-form) text lies between their texts in
+    plain string order.  Only used to LABEL a failing case, never to decide the expected result."""
     a, b = written(sibs[i]), written(sibs[j])
     if a == b:
         return False
@@ -525,26 +530,24 @@ def build_atoms(model, vocab, defs, rng, quick):
     pool_val = [n for n in vocab.plain_nodes if n.takes_value and n.value_classes]
     k = 10 if quick else 30
     plain = rng.sample(pool_plain, k)
-    atoms = [n.name for n in plain]
-    atoms += [n.forms()[min(1, len(n.forms()) - 1)] for n in rng.sample(pool_plain, 4)]
-    for n in rng.sample([x for x in pool_plain if x.ext_allowed], 3):
-        atoms.append(n.name + "/" + EXT_WORD)
+    cand = [(n.name, n.name) for n in plain]                                           # short form
+    for n in rng.sample(pool_plain, 4):                                                # partial path
+        f = n.forms()[min(1, len(n.forms()) - 1)]
+        SHORT_OF[f] = n.name
+        cand.append((f, n.name))
+    cand += [(n.name + "/" + EXT_WORD, n.name) for n in rng.sample([x for x in pool_plain if x.ext_allowed], 3)]
     for n in rng.sample(pool_val, 5 if quick else 12):
         v = vocab.good_values(n)[0]
         us = vocab.good_units(n)
-        atoms.append(valued(n.name, v, us[rng.randrange(len(us))] if us else None))
-    atoms.append("Def/" + DEF_PLAIN)
-    atoms.append("Def/" + DEF_VALUE + "/3")
-    # drop atoms whose node collides with another atom's node (would be a genuine repeat)
+        cand.append((valued(n.name, v, us[rng.randrange(len(us))] if us else None), n.name))
+    cand.append(("Def/" + DEF_PLAIN, "def:plain"))
+    cand.append(("Def/" + DEF_VALUE + "/3", "def:value"))
+    # one atom per schema node, so that no repeat is generated by accident
     seen, out = set(), []
-    for a in atoms:
-        key = a.split("/")[-2 if a.startswith("Def/") else 0].casefold() if a.startswith("Def/") else \
-            m.node([p for p in a.split("/") if p.casefold() in m.all_names][-1]).name
-        key = a.casefold() if a.startswith("Def/") else key
-        if key in seen:
-            continue
-        seen.add(key)
-        out.append(a)
+    for text, key in cand:
+        if key not in seen:
+            seen.add(key)
+            out.append(text)
     # bad atoms: (text, rule, clause, phs)
     bad = []
     noext = [n for n in m.nodes if m.usable(n) and not n.ext_allowed and not n.takes_value
@@ -647,6 +650,8 @@ def part_grammar(w, run, model, vocab, defs):
 
             # ---- repeated tag: copy of leaf i inserted at every sibling position ---------------------------
             for lst, depth in lists:
+                if _in_special(tree, lst):
+                    continue
                 for i, x in enumerate(lst):
                     if isinstance(x, str) and not _is_special_member(x):
                         for p in range(len(lst) + 1):
@@ -696,11 +701,15 @@ def part_grammar(w, run, model, vocab, defs):
                             perm = [grp[0], list(reversed(grp[1]))]
                             run.valid(render(replace_in(tree, lst, lst[:i] + [perm] + lst[i + 1:])), clause=CL_VALID_DEFX_ORDER)
                             perm2 = [list(grp[1]), grp[0]]
-                            run.valid(render(replace_in(tree, lst, lst[:i] + [perm2] + lst[i + 1:])))
+                            run.valid(render(replace_in(tree, lst, lst[:i] + [perm2] + lst[i + 1:])), clause=CL_VALID_DEFX_ORDER)
 
             # ---- delimiters and characters on the rendered text ------------------------------------------------
             toks = tokenize(text)
             bounds = token_bounds(toks)
+            dx_span = (0, 0)
+            if "(Def-expand/" in text:
+                o = text.index("(Def-expand/")
+                dx_span = (o, [c for oo, c in matched_pairs(toks) if oo == o][0])
             for bi2, pos in enumerate(bounds):
                 ci += 1
                 if quick and ci % 2:
@@ -722,7 +731,8 @@ def part_grammar(w, run, model, vocab, defs):
                     prv = toks[ti - 1][0] if ti else ""
                     if nxt == "(" or prv == ")":
                         run.invalid(text[:pos] + text[pos + 1:], "comma", CL_EMPTY)
-                    run.invalid(text[:pos] + ",()" + text[pos:], "empty", CL_EMPTY)
+                    if not dx_span[0] < pos < dx_span[1]:
+                        run.invalid(text[:pos] + ",()" + text[pos:], "empty", CL_EMPTY)
                 if t == "(":
                     run.invalid(text[:pos + 1] + "," + text[pos + 1:], "empty", CL_EMPTY)
                 if t == ")":
@@ -760,6 +770,20 @@ def _is_special_group(g):
     return any(isinstance(x, str) and x.startswith(_SPECIAL_PREFIX) for x in g) or \
         any(isinstance(x, str) and x in ("Green", "Triangle") for x in g) or \
         any(isinstance(x, list) and _is_special_group(x) for x in g)
+
+
+def _in_special(tree, lst, inside=False):
+    """True if the sibling list `lst` is a special group or lies inside one"""
+    if tree is lst:
+        return inside or any(isinstance(x, str) and x.startswith(_SPECIAL_PREFIX) for x in lst)
+    for x in tree:
+        if isinstance(x, list):
+            here = inside or any(isinstance(y, str) and y.startswith(_SPECIAL_PREFIX) for y in x)
+            if x is lst:
+                return here
+            if _in_special(x, lst, here):
+                return True
+    return False
 
 
 def _defexpand_alterations(kind, grp, a, b, v1, v2):
